@@ -2,9 +2,16 @@
 Model of `normalize_beatgrid` (src/djinterop/engine/engine.cpp), generic over
 the arithmetic of sample offsets: the driver instantiates `Num` with hardware
 `Float` (bit-exact tie with the C++), the proofs with `ℚ` (Properties/C20).
-Every `int` operation of the C++ is checked (`ub signed_overflow`), the
-`static_cast<int32_t>(std::ceil(x))` is `Num.ceil32` (`none` = out of range or
-NaN = `ub float_cast_range`).
+Beat indices are `int` fields (`In32` is their type invariant); the C++ does
+its index arithmetic at 64 bits (since the `fix:` that removed the `int`
+overflows) — every such operation is a checked `chk64` here (`ub
+signed_overflow` if it left `int64_t`; `C20_defined` proves it never does).
+`Num.ceil32 x` is the range test `c >= -2^31 && c <= 2^31-1` on
+`c = std::ceil(x)` followed by `static_cast<int32_t>(c)`: `none` = the test
+failed (NaN or out of range), which the C++ rejects with invalid_argument.
+
+`window` is the Spec of trimming, written from the property text ("the part of
+the grid that overlaps the track"), independent of `trim`'s index arithmetic.
 -/
 import EngineModel.Basic.Res
 
@@ -26,10 +33,19 @@ structure Num (α : Type) where
 structure Marker (α : Type) where
   index : Int
   off : α
-  deriving Repr
+  deriving Repr, DecidableEq
 
-def chk32 (x : Int) : Res Int :=
-  if -2147483648 ≤ x ∧ x ≤ 2147483647 then .ok x else .ub .signed_overflow
+/-- `x` fits `int32_t` (the type of `beatgrid_marker::index`). -/
+def In32 (x : Int) : Prop := -2147483648 ≤ x ∧ x ≤ 2147483647
+
+instance (x : Int) : Decidable (In32 x) := by unfold In32; infer_instance
+
+/-- Checked `int64_t` arithmetic. -/
+def chk64 (x : Int) : Res Int :=
+  if -9223372036854775808 ≤ x ∧ x ≤ 9223372036854775807 then .ok x else .ub .signed_overflow
+
+/-- What `ceil32` promises by construction (range test before the cast). -/
+def Num.Ceil32Ok {α : Type} (num : Num α) : Prop := ∀ x c, num.ceil32 x = some c → In32 c
 
 variable {α : Type}
 
@@ -50,9 +66,9 @@ def trim (num : Num α) (g : List (Marker α)) (n : Int) : List (Marker α) :=
 /-- Move the first marker along the first segment to beat index −4. -/
 def fixFirst (num : Num α) : List (Marker α) → Res (List (Marker α))
   | m0 :: m1 :: rest => do
-    let di ← chk32 (m1.index - m0.index)
+    let di ← chk64 (m1.index - m0.index)
     let spb := num.div (num.sub m1.off m0.off) (num.ofInt di)
-    let k ← chk32 (4 + m0.index)
+    let k ← chk64 (4 + m0.index)
     pure (⟨-4, num.sub m0.off (num.mul (num.ofInt k) spb)⟩ :: m1 :: rest)
   | g => .ok g
 
@@ -60,14 +76,16 @@ def fixFirst (num : Num α) : List (Marker α) → Res (List (Marker α))
 def fixLast (num : Num α) (g : List (Marker α)) (n : Int) : Res (List (Marker α)) :=
   match g.reverse with
   | ml :: mp :: revRest => do
-    let di ← chk32 (ml.index - mp.index)
+    let di ← chk64 (ml.index - mp.index)
     let spb := num.div (num.sub ml.off mp.off) (num.ofInt di)
     match num.ceil32 (num.div (num.sub (num.ofInt n) ml.off) spb) with
-    | none => .ub .float_cast_range
-    | some adj =>
+    | none => .throw .invalid_argument  -- beats to the end: NaN or not an `int32_t`
+    | some adj => do
+      let il ← chk64 (ml.index + adj)
       -- the track ends at or before the previous marker's beat: misplaced grid
-      if ml.index + adj ≤ mp.index then .throw .invalid_argument else do
-      let il ← chk32 (ml.index + adj)
+      if il ≤ mp.index then .throw .invalid_argument else
+      -- the new last index does not fit the index type
+      if 2147483647 < il then .throw .invalid_argument else
       pure ((⟨il, num.add ml.off (num.mul (num.ofInt adj) spb)⟩ :: mp :: revRest).reverse)
   | _ => .ok g
 
@@ -80,5 +98,20 @@ def normalize (num : Num α) (g : List (Marker α)) (n : Int) : Res (List (Marke
       let f ← fixFirst num t
       fixLast num f n
   | _ => .throw .invalid_argument
+
+/-! ### Spec of trimming (from the property text) -/
+
+/-- `m` is kept unless a later marker is still at or before sample 0 (then `m` lies wholly
+before the track start with another marker between it and the start) or an earlier marker
+is already at or beyond the end `n`.  "Later"/"earlier" are read off the sample offsets
+(the grid is strictly increasing).  So the window is: the last marker at or before sample 0
+(or the first marker, if none is), every marker strictly inside the track, and the first
+marker at or beyond the end (or the last marker, if none is). -/
+def inWindow (num : Num α) (g : List (Marker α)) (n : Int) (m : Marker α) : Bool :=
+  g.all (fun x => !num.lt m.off x.off || num.lt (num.ofInt 0) x.off) &&
+  g.all (fun x => !num.lt x.off m.off || !num.le (num.ofInt n) x.off)
+
+def window (num : Num α) (g : List (Marker α)) (n : Int) : List (Marker α) :=
+  g.filter (inWindow num g n)
 
 end EngineModel.Pure.Beatgrid
